@@ -285,6 +285,7 @@ EXEC_SCRIPTS = {
     "modulo-index-with-negative-dividend": "ring = [10, 20, 30, 40]\nhead = 0\nwhile True:\n    mon.write(ring[(head - 1) % 4])\n    mon.write(ring[(head - 3) % len(ring)])\n    mon.write(ring[(0 - head) % 4])\n    head = (head + 1) % 4\n    sleep(1)\n",
     "reassign-free-append-of-a-wider-value-with-matching-remove": "hist = [1, 2, 3]\nk = 9\nwhile True:\n    hist.append(k / 4)\n    hist.remove(hist[0])\n    mon.write(len(hist))\n    k = k + 1\n    sleep(1)\n",
     "conditional-rebind-with-itself-as-an-arm-keeps-the-values": "night = [1, 2, 3]\nactive = [7, 8, 9]\nnames = ['a', 'b']\nshown = ['x', 'y']\nn = 0\nwhile True:\n    active = night if n % 3 == 0 else active\n    shown = shown if n % 2 == 0 else names\n    mon.write(active[0] + active[2])\n    mon.write(shown[1])\n    n = n + 1\n    sleep(1)\n",
+    "len-of-a-short-list-in-signed-arithmetic": "def mk(v):\n    return [v]\nxs = mk(7)\nt = 0\nwhile True:\n    if len(xs) - 2 >= 0:\n        t = t + xs[-1] - xs[-2]\n    mon.write(1 if len(xs) - 2 >= 0 else 0)\n    mon.write(len(xs) - 3)\n    i = 0\n    while i < len(xs) - 1:\n        t = t + xs[i + 1]\n        i = i + 1\n    mon.write(t)\n    sleep(5)\n",
     "nested-continue-then-balancing-list-work": "xs = [1, 2, 3]\nn = 0\nwhile True:\n    xs.append(n)\n    for i in range(3):\n        if i == 1:\n            continue\n        mon.write(i)\n    k = 0\n    while k < 2:\n        k = k + 1\n        if k == 1:\n            continue\n        mon.write(k)\n    xs.remove(n)\n    mon.write(len(xs))\n    mon.write(xs[2])\n    n = n + 1\n    sleep(1)\n",
     "reassign-from-literal-and-comprehension-each-pass": "b = [0]\nwhile True:\n    b = [1, 2]\n    b.append(3)\n    mon.write(b[2])\n    sleep(1)\n",
     "comprehension-then-index": "while True:\n    sq = [i * i for i in range(5)]\n    mon.write(sq[4])\n    mon.write(sq[-1])\n    sleep(1)\n",
